@@ -322,6 +322,16 @@ fn program_case(src: &mut Src, ctx: &mut Ctx) -> Result<(), String> {
         ctx.nontrivial(hash_of(&p));
     }
     ctx.label(&format!("chain depth {}", maxd.min(6)));
+    ctx.label(["program cell listed", "program cell listed after the cell that instantiates it", "program cell reachable only through an instance"][wrap_mode(&p)]);
+    if p.insts.iter().any(|m| { let s = p.cells[m.cell]; s.0 >= 2 && s.1 >= 2 && (s.0 + s.1) % 3 == 0 }) {
+        ctx.label("instance of a cell with a two-step outline");
+    }
+    for m in &p.insts {
+        if let Some(r) = &m.rel {
+            ctx.label(&format!("separation {}", match r.sep { MSep::None => "none", MSep::Pitches(_) => "in pitches", MSep::SizeOf(_) => "size of a cell" }));
+            break;
+        }
+    }
     ctx.sample("placement program", || format!("{:?}", p));
     check_program(&p, ctx)
 }
